@@ -64,6 +64,14 @@ def _estimators(vc, est=None, n=None):
     c1 = np.array([float(E.cdf(float(v))) for v in xs[:3]])
     vc.ensures("cdf_independent_of_the_order_of_the_points", bool(np.allclose(cp, c[perm], rtol=0, atol=1e-6))
                and bool(np.allclose(c1, c[:3], rtol=0, atol=1e-6)))
+    # ... and whatever was asked before: after the calls above, a point far below the estimator's own lower limit
+    if est == "unimodal":
+        w_ = hi - lo
+        x_far = lo - 0.35 * w_
+        ref_far = sum(quad(E, a_, b_, limit=200)[0] for a_, b_ in [(lo - 1e3 * w_, lo - 10 * w_), (lo - 10 * w_, x_far)])
+        got_far = float(E.cdf(x_far))
+        vc.inputs["cdf_far_below_the_lower_limit"] = [got_far, float(ref_far)]
+        vc.ensures("cdf_is_integral_of_density_below_the_lower_limit_after_other_calls", abs(got_far - ref_far) < 1e-3 + 0.02 * ref_far)
     # the mode is a maximum of the density in its own neighbourhood ... and the global one
     wloc = 0.25 * E.h if est == "kde" else 0.05 * E.MAP[1]
     near = np.linspace(E.mode - wloc, E.mode + wloc, 41)
